@@ -425,7 +425,29 @@ def w_c10e():
                 f"directory's name are missing: relative {sorted(rel)}, absolute {sorted(ab)}")
 
 
+def w_c08b():
+    import os
+
+    from .impl import get_evaluable_architecture
+
+    files = {"proj/__init__.py": "", "proj/a.py": "", "store/f0.py": "import proj.a\n", "proj/genx/m.py": ""}
+    with Project(files) as p:
+        os.symlink(p.path("store/f0.py"), p.path("proj/gen_x.py"))
+        by_link = _nodes(get_evaluable_architecture(p.path("proj"), p.path("proj"), exclusions=("*gen_x.py",)))
+        by_target = _nodes(get_evaluable_architecture(p.path("proj"), p.path("proj"), exclusions=("*f0.py",)))
+        cwd = os.getcwd()
+        os.chdir(p.path())
+        try:
+            rel = _nodes(get_evaluable_architecture("proj", "proj", exclusions=("proj/a.py",)))
+        finally:
+            os.chdir(cwd)
+    if "proj.gen_x" in by_link or "proj.gen_x" not in by_target or "proj.a" in rel:
+        return (f"exclusion patterns are not matched against a file's path in the scanned tree: pattern on the link's name leaves {sorted(by_link)}, "
+                f"pattern on the target's name leaves {sorted(by_target)}, relative root with 'proj/a.py' leaves {sorted(rel)}")
+
+
 WITNESSES = {
+    "F-C08b": ("C08", w_c08b),
     "F-C10e": ("C10", w_c10e),
     "F-C08a": ("C08", w_c08a),
     "F-C02a": ("C02", w_c02a),
